@@ -64,8 +64,8 @@ def EntryOk (A : Cfg → Entry → Prop) (HR : Res → Prop) (x : Ctx) (ph : Pha
        (∀ r, HR r → A c (.sendRet x.t.tid ph cb r)) ∧ ∀ v, A c (.cbEnd x.t.tid ph cb v)
 
 theorem sendsLoop_lift (L : Lift R A HR h) (x : Ctx) (ph : Phase) (cb : CbId) (ok : EntryOk A HR x ph cb)
-    (es : List EventId) : Resp R (sendsLoop h x ph cb es) := by
-  induction es with
+    (es : List EventId) (last : Option Res) : Resp R (sendsLoop h x ph cb last es) := by
+  induction es generalizing last with
   | nil => exact L.pure _
   | cons e es ih =>
     unfold sendsLoop
@@ -76,7 +76,7 @@ theorem sendsLoop_lift (L : Lift R A HR h) (x : Ctx) (ph : Phase) (cb : CbId) (o
     · rename_i c1 r heq
       rw [heq] at hh
       refine L.trans _ _ _ hh.1 ?_
-      refine L.bind (fun c => ?_) (fun _ => ih) c1
+      refine L.bind (fun c => ?_) (fun _ => ih _) c1
       have := L.log c [.sendRet x.t.tid ph cb r] c.nextInv
         (by intro e he; simp at he; subst he; exact (ok c).2.1 r (hh.2 r rfl))
       simpa [logAppend, EM.modify] using this
@@ -92,12 +92,12 @@ theorem runCb_lift (L : Lift R A HR h) (m : Machine) (x : Ctx) (ph : Phase) (cb 
   · have := L.log c [.cbBegin x.t.tid ph cb c.cur x.t.event x.src x.tgt] (c.nextInv + 1)
       (by intro e he; simp at he; subst he; exact (ok c).1)
     simpa [EM.modify] using this
-  refine L.bind (sendsLoop_lift L x ph cb ok _) fun _ => ?_
+  refine L.bind (sendsLoop_lift L x ph cb ok _ _) fun last => ?_
   split
   · exact L.throw _
   · refine L.bind (fun c => ?_) fun _ => L.pure _
     have := L.log c [.cbEnd x.t.tid ph cb
-        (m.behav cb cfg.nextInv { tid := x.t.tid, state := cfg.cur, event := x.t.event }).ret] c.nextInv
+        (retOf m (m.behav cb cfg.nextInv { tid := x.t.tid, state := cfg.cur, event := x.t.event }) last)] c.nextInv
       (by intro e he; simp at he; subst he; exact (ok c).2.2 _)
     simpa [logAppend, EM.modify] using this
 
